@@ -1,14 +1,166 @@
-// ===== SPEC (keys): dictionary-key equality on interpreter values =====
+// ===== SPEC (keys): dictionary keys on interpreter values: validity, equality, hashing =====
 verus! {
-// element-wise key equality of sequences: ASSUMED for total_eq_of_key_seqs (iterator adapters are outside Verus)
-pub uninterp spec fn key_seq_eq(a: Seq, b: Seq) -> bool;
-// keys are equal when both are null, or numbers that are == (NaN equal to itself), or key-equal sequences
-pub open spec fn key_eq(a: Obj, b: Obj) -> bool {
+// ---- the dictionary storage is opaque (std HashMap): what is assumed about it ----
+pub uninterp spec fn dict_values_hashable(d: DictMap) -> bool;      // every stored value is itself a valid key
+pub uninterp spec fn dict_key_eq(a: DictMap, b: DictMap) -> bool;    // same key set and key-equal values (total_eq_of_key_seqs, Dict arm)
+
+// a value may be used as a dictionary key: null, numbers, text, bytes, vectors, and lists / dictionaries of such values
+pub open spec fn hashable(o: Obj) -> bool decreases o {
+    match o {
+        Obj::Null => true,
+        Obj::Num(_) => true,
+        Obj::Seq(Seq::String(_)) => true,
+        Obj::Seq(Seq::List(xs)) => forall|i: int| 0 <= i < xs@.len() ==> hashable(#[trigger] xs@[i]),
+        Obj::Seq(Seq::Dict(d, _)) => dict_values_hashable(*d),
+        Obj::Seq(Seq::Vector(_)) => true,
+        Obj::Seq(Seq::Bytes(_)) => true,
+        Obj::Seq(Seq::Stream(_)) => false,
+        Obj::Func(..) => false,
+        Obj::Instance(..) => false,
+    }
+}
+// no dictionary anywhere inside (the words a dictionary hashes to go through std's DefaultHasher and are not modelled)
+pub open spec fn dict_free(o: Obj) -> bool decreases o {
+    match o {
+        Obj::Seq(Seq::List(xs)) => forall|i: int| 0 <= i < xs@.len() ==> dict_free(#[trigger] xs@[i]),
+        Obj::Seq(Seq::Dict(..)) => false,
+        _ => true,
+    }
+}
+pub open spec fn vec_num_eq(a: VSeq<NNum>, b: VSeq<NNum>) -> bool {
+    a.len() == b.len() && forall|i: int| 0 <= i < a.len() ==> key_num_eq((#[trigger] a[i])@, b[i]@)
+}
+// keys are equal when both are null, or numbers that are == (NaN equal to itself), or sequences of the same kind that are
+// element-wise key-equal
+pub open spec fn key_eq(a: Obj, b: Obj) -> bool decreases a {
     match (a, b) {
         (Obj::Null, Obj::Null) => true,
         (Obj::Num(x), Obj::Num(y)) => key_num_eq(x@, y@),
-        (Obj::Seq(x), Obj::Seq(y)) => key_seq_eq(x, y),
+        (Obj::Seq(Seq::List(x)), Obj::Seq(Seq::List(y))) => x@.len() == y@.len() && forall|i: int| 0 <= i < x@.len() ==> key_eq(#[trigger] x@[i], y@[i]),
+        (Obj::Seq(Seq::Dict(x, _)), Obj::Seq(Seq::Dict(y, _))) => dict_key_eq(*x, *y),
+        (Obj::Seq(Seq::String(x)), Obj::Seq(Seq::String(y))) => x@ == y@,
+        (Obj::Seq(Seq::Vector(x)), Obj::Seq(Seq::Vector(y))) => vec_num_eq(x@, y@),
+        (Obj::Seq(Seq::Bytes(x)), Obj::Seq(Seq::Bytes(y))) => x@ == y@,
         _ => false,
     }
+}
+pub open spec fn key_seq_eq(a: Seq, b: Seq) -> bool { key_eq(Obj::Seq(a), Obj::Seq(b)) }
+
+// ---- the words a key writes into a hasher ----
+pub open spec fn list_len(o: Obj) -> nat { match o { Obj::Seq(Seq::List(xs)) => xs@.len(), _ => 0 } }
+pub open spec fn vec_words(v: VSeq<NNum>, n: nat) -> VSeq<HWord> decreases n {
+    if n == 0 || n > v.len() { VSeq::empty() } else { vec_words(v, (n - 1) as nat) + num_hash_words(v[n - 1]@) }
+}
+// words written for the first n elements of the list o
+pub open spec fn list_words(o: Obj, n: nat) -> VSeq<HWord> decreases o, n {
+    match o {
+        Obj::Seq(Seq::List(xs)) => if n == 0 || n > xs@.len() { VSeq::empty() } else { list_words(o, (n - 1) as nat) + key_words(xs@[n - 1]) },
+        _ => VSeq::empty(),
+    }
+}
+pub open spec fn key_words(o: Obj) -> VSeq<HWord> decreases o, list_len(o) + 1 {
+    match o {
+        Obj::Null => seq![HWord::U8(0)],
+        Obj::Num(n) => seq![HWord::U8(1)] + num_hash_words(n@),
+        Obj::Seq(Seq::String(s)) => seq![HWord::U8(2), HWord::Str(s@)],
+        Obj::Seq(Seq::List(xs)) => seq![HWord::U8(3), HWord::Usize(xs@.len() as usize)] + list_words(o, xs@.len()),
+        Obj::Seq(Seq::Vector(v)) => seq![HWord::U8(5), HWord::Usize(v@.len() as usize)] + vec_words(v@, v@.len()),
+        Obj::Seq(Seq::Bytes(b)) => seq![HWord::U8(6), HWord::ByteStr(b@)],
+        _ => VSeq::empty(),
+    }
+}
+
+// ---- equal keys hash equally, for keys of any nesting depth without dictionaries inside ----
+pub proof fn lemma_vec_words(a: VSeq<NNum>, b: VSeq<NNum>, n: nat)
+    requires vec_num_eq(a, b), n <= a.len(),
+    ensures vec_words(a, n) == vec_words(b, n),
+    decreases n
+{
+    if n > 0 {
+        lemma_vec_words(a, b, (n - 1) as nat);
+        assert(key_num_eq(a[n - 1]@, b[n - 1]@));
+        lemma_equal_keys_hash_equally(a[n - 1]@, b[n - 1]@);
+    }
+}
+pub proof fn lemma_list_words(a: Obj, b: Obj, n: nat)
+    requires a is Seq, a->Seq_0 is List, b is Seq, b->Seq_0 is List, key_eq(a, b), dict_free(a), dict_free(b), n <= list_len(a),
+    ensures list_words(a, n) == list_words(b, n),
+    decreases a, n
+{
+    if n > 0 {
+        lemma_list_words(a, b, (n - 1) as nat);
+        let x = a->Seq_0->List_0; let y = b->Seq_0->List_0;
+        assert(key_eq(x@[n - 1], y@[n - 1]));
+        assert(dict_free(x@[n - 1]) && dict_free(y@[n - 1]));
+        lemma_key_words_of_equal_keys(x@[n - 1], y@[n - 1]);
+    }
+}
+pub proof fn lemma_key_words_of_equal_keys(a: Obj, b: Obj)
+    requires key_eq(a, b), dict_free(a), dict_free(b),
+    ensures key_words(a) == key_words(b),
+    decreases a, list_len(a) + 1
+{
+    match (a, b) {
+        (Obj::Num(x), Obj::Num(y)) => { lemma_equal_keys_hash_equally(x@, y@); }
+        (Obj::Seq(Seq::List(x)), Obj::Seq(Seq::List(y))) => { lemma_list_words(a, b, x@.len()); }
+        (Obj::Seq(Seq::Vector(x)), Obj::Seq(Seq::Vector(y))) => { lemma_vec_words(x@, y@, x@.len()); }
+        _ => {}
+    }
+}
+} // verus!
+verus! {
+// ---- stubs for the opaque dictionary and std's hasher (assumed) ----
+#[verifier::external_body] pub struct DictValues<'a> { _p: &'a u8 }
+#[verifier::external_body] pub struct DictIter<'a> { _p: &'a u8 }
+impl<'a> Iterator for DictValues<'a> { type Item = &'a Obj; #[verifier::external_body] fn next(&mut self) -> Option<&'a Obj> { unimplemented!() } }
+impl<'a> Iterator for DictIter<'a> { type Item = (&'a ObjKey, &'a Obj); #[verifier::external_body] fn next(&mut self) -> Option<(&'a ObjKey, &'a Obj)> { unimplemented!() } }
+impl DictMap {
+    // a dictionary is a valid key exactly when all its values are (its keys were made by to_key)
+    #[verifier::external_body]
+    pub fn values(&self) -> (r: DictValues<'_>)
+        ensures finite_iter(r), dict_values_hashable(*self) <==> (forall|i: int| 0 <= i < r.remaining().len() ==> hashable(*#[trigger] r.remaining()[i])),
+            // the values are stored inside the map (structurally smaller)
+            forall|i: int| 0 <= i < r.remaining().len() ==> dict_contains_value(*self, *#[trigger] r.remaining()[i])
+    { unimplemented!() }
+    #[verifier::external_body]
+    pub fn iter(&self) -> (r: DictIter<'_>)
+        ensures finite_iter(r), forall|i: int| 0 <= i < r.remaining().len() ==> hashable((#[trigger] r.remaining()[i]).0.0),
+            dict_values_hashable(*self) ==> (forall|i: int| 0 <= i < r.remaining().len() ==> hashable(*(#[trigger] r.remaining()[i]).1)),
+            forall|i: int| 0 <= i < r.remaining().len() ==> dict_contains_key(*self, *(#[trigger] r.remaining()[i]).0) && dict_contains_value(*self, *r.remaining()[i].1)
+    { unimplemented!() }
+}
+pub uninterp spec fn dict_contains_value(d: DictMap, v: Obj) -> bool;
+pub uninterp spec fn dict_contains_key(d: DictMap, k: ObjKey) -> bool;
+#[verifier::external_body]
+pub proof fn axiom_dict_key_smaller(o: Obj, k: ObjKey)
+    requires o is Seq, o->Seq_0 is Dict, dict_contains_key(*o->Seq_0->Dict_0, k),
+    ensures decreases_to!(o => k.0),
+{}
+// a value stored in a map is structurally smaller than the (shared) map: needed only for the termination of recursive walks
+#[verifier::external_body]
+pub proof fn axiom_dict_value_smaller(o: Obj, v: Obj)
+    requires o is Seq, o->Seq_0 is Dict, dict_contains_value(*o->Seq_0->Dict_0, v),
+    ensures decreases_to!(o => v),
+{}
+#[verifier::external_body] pub struct DefaultHasher { _p: u8 }
+pub uninterp spec fn default_hasher_log(h: DefaultHasher) -> VSeq<HWord>;
+pub uninterp spec fn finish_spec(l: VSeq<HWord>) -> u64;
+impl Hasher for DefaultHasher {
+    open spec fn hlog(&self) -> VSeq<HWord> { default_hasher_log(*self) }
+    #[verifier::external_body] fn write_i64(&mut self, x: i64) { unimplemented!() }
+    #[verifier::external_body] fn write_u64(&mut self, x: u64) { unimplemented!() }
+    #[verifier::external_body] fn write_u8(&mut self, x: u8) { unimplemented!() }
+    #[verifier::external_body] fn write_usize(&mut self, x: usize) { unimplemented!() }
+}
+impl DefaultHasher {
+    #[verifier::external_body] pub fn new() -> (r: DefaultHasher) ensures r.hlog() == VSeq::<HWord>::empty() { unimplemented!() }
+    #[verifier::external_body] pub fn finish(&self) -> (r: u64) ensures r == finish_spec(self.hlog()) { unimplemented!() }
+}
+
+pub open spec fn finite_iter<I: Iterator>(it: I) -> bool { it.obeys_prophetic_iter_laws() && it.decrease() is Some }
+impl StreamBox {
+    // dyn Stream::force (forces the stream into a list; iteration is not modelled here)
+    #[verifier::external_body]
+    pub fn force(&self) -> (r: NRes<Vec<Obj>>) { unimplemented!() }
 }
 } // verus!
